@@ -60,7 +60,9 @@ var xgoLitPool = []string{"1r", "1.5r", "3_0r", "0x1r", "1m", "2.5s", "3ms", "4u
 var wsPool = []string{" ", " ", " ", "\t", "\n", "\n", "\r\n", "  ", "\n\n", " \n", "\r", "\f", "\v"}
 
 var hostilePool = []string{"\x00", "\xef\xbb\xbf", "\xff", "\x80", "\xc0\xaf", "\xed\xa0\x80", "\\", "�", " ", " ", "@", "`", "\"", "'", "\x7f", "\x1b",
-	strings.Repeat("a", 300), strings.Repeat("(", 40), strings.Repeat("[", 40), strings.Repeat("{", 40), strings.Repeat("-", 9), strings.Repeat("*", 7), "\xfe\xff", "\xf4\x90\x80\x80"}
+	strings.Repeat("a", 300), strings.Repeat("(", 40), strings.Repeat("[", 40), strings.Repeat("{", 40), strings.Repeat("-", 9), strings.Repeat("*", 7), "\xfe\xff", "\xf4\x90\x80\x80",
+	// carriage returns in the places where the scanners treat them specially
+	"\r", "\r\n", "*\r/", "/*\r*/", "/**\r\r/", "/*\r/", "`\r`", "//\r", "#\r", "\"\r\"", "*\r"}
 
 // structural fragments that bias soup toward parser-interesting shapes
 var xgoFragPool = []string{"for x <- y", "for i, v <- a", "[x for x <- a]", "{k: v for k, v <- m}", "x => x+1", "(a, b) => {", "=> {", "f!", "g()?", "h()?:0",
